@@ -338,9 +338,9 @@ theorem run_val : ∀ (f : Nat) (r₁ : Mod) (s₁ : List Stmt) (n : Stmt) (vis 
         r₁ r₂ n s₁ s₂ (vis' r₁ n vis) [] Q st {} ⟨hcoh, Frame.refl st⟩
         (findGrouping W.env₁.reg W.env₁.linked (2 * f + 16) r₁ s₁ n.arg []).1 (W.lk₂ r₂ s₂ n.arg) false
         (REb_of_eq _ (ren_e0 _ _ _ _ hseq))
-        (fun syn => REb_of_eq _ (ren_leafEntry _ _ _ _ _ _ _ _ syn hseq (fun t => hW.cr_types (hW.cr_child n hcr) t)))
-        (REb_of_eq _ (ren_errorEntry _ _ _ _ _ hseq))
-        (fun t _ => hW.cr_types (hW.cr_child n hcr) t)
+        (fun _ syn => REb_of_eq _ (ren_leafEntry _ _ _ _ _ _ _ _ syn hseq (fun t => hW.cr_types (hW.cr_child n hcr) t)))
+        (fun _ => REb_of_eq _ (ren_errorEntry _ _ _ _ _ hseq))
+        (fun _ t _ => hW.cr_types (hW.cr_child n hcr) t)
         (not_mod_hinc hn)
         ?hch ?huses (fun h => absurd h (by decide))
         (fun a t₁ b t₂ hab hs => ⟨hab, hs.2, Or.inl hs.1⟩)
@@ -412,14 +412,16 @@ theorem run_val : ∀ (f : Nat) (r₁ : Mod) (s₁ : List Stmt) (n : Stmt) (vis 
       | some p =>
         have hbody : toEntryBody W.env₁ f (toEntry W.env₁ f) r₁ s₁ n vis st = (p.2, st) := by
           unfold toEntryBody
-          unfold isModKw at hn
-          simp only [hn, hg, beq_self_eq_true, if_true, hfind, Bool.false_eq_true, if_false]
+          dsimp only
+          rw [show (n.kw == "module" || n.kw == "submodule") = false from hn,
+            show (n.kw == "grouping") = true by rw [hg]; rfl]
+          simp only [Bool.false_eq_true, if_false, if_true, hfind]
         rw [hbody]
         refine ⟨?_, hcoh, Frame.refl st⟩
         have hmem := List.mem_of_find?_eq_some hfind
         have hkey : nodeId r₁ n = p.1 := by
-          have := List.find?_some hfind
-          simpa using this.symm
+          have : p.1 = nodeId r₁ n := by simpa using List.find?_some hfind
+          exact this.symm
         exact hcoh p hmem r₁ s₁ n hwf hg hkey r₂ s₂ hcr
       | none =>
         have h2 : (if n.kw == "grouping" then st.gcache.find? (·.1 == nodeId r₁ n) else none) = none := by
@@ -428,9 +430,10 @@ theorem run_val : ∀ (f : Nat) (r₁ : Mod) (s₁ : List Stmt) (n : Stmt) (vis 
         | true =>
           have hbody : toEntryBody W.env₁ f (toEntry W.env₁ f) r₁ s₁ n vis st = (errorEntry r₁ n "cycle", st) := by
             unfold toEntryBody
-            unfold isModKw at hn
-            simp only [hn, hg, beq_self_eq_true, if_true, hfind, Bool.false_eq_true, if_false, hv, Bool.or_true,
-              Bool.and_self]
+            dsimp only
+            rw [show (n.kw == "module" || n.kw == "submodule") = false from hn,
+              show (n.kw == "grouping") = true by rw [hg]; rfl]
+            simp only [Bool.false_eq_true, if_false, if_true, hfind, hv, Bool.false_or, Bool.and_self]
           rw [hbody]
           exact ⟨REb_dirty _ (not_clean_errorEntry _ _ _) (hcyc hg hv), hcoh, Frame.refl st⟩
         | false =>
